@@ -361,7 +361,7 @@ def gen_cfg(tier, kernels=None):
     if tier == "quick":
         c = dict(MaxElem=67, MaxBool=131, MaxByte=67, MaxMem=515, Large="{1000, 1027}", Huge="{524296}", NRand=2, FullRun=36)
     else:
-        c = dict(MaxElem=131, MaxBool=259, MaxByte=131, MaxMem=515, Large="{1000, 1027, 4099}", Huge="{524288, 524296, 1048592}", NRand=4, FullRun=70)
+        c = dict(MaxElem=131, MaxBool=259, MaxByte=131, MaxMem=515, Large="{1000, 1027, 4099}", Huge="{524288, 524296, 786440}", NRand=4, FullRun=70)
     txt = "CONSTANTS\n  Seed = %d\n  KernelSet = %s\n" % (sd, ks)
     txt += "".join("  %s = %s\n" % kv for kv in c.items())
     txt += "INIT Init\nNEXT Next\nINVARIANT Emit\nCHECK_DEADLOCK FALSE\n"
